@@ -1423,7 +1423,7 @@ Proof.
 Qed.
 
 (* ------------------------------------------------------------------ *)
-(* the unprotected window: appending to an archive with an encoded header *)
+(* descriptors WITHOUT the plain-header CRC (written before the repair): the window *)
 (* ------------------------------------------------------------------ *)
 Lemma skipn_write_at_beyond img pos d n : (pos + length d <= length img)%nat -> (pos + length d <= n)%nat ->
   skipn n (write_at img pos d) = skipn n img.
@@ -1500,7 +1500,7 @@ Definition toy_old : bytes :=
   MAGIC ++ [0; 4] ++ sig_fields (start_crc 2 18 (crc32 toy_desc)) 2 18 (crc32 toy_desc) ++ [1; 0] ++ toy_desc.
 Definition copy_dec (f : folder) (b : bytes) (us : Z) : option bytes := Some b.
 
-Theorem append_crash_safe_refuted_proof :
+Theorem legacy_descriptor_witness_proof :
   exists lim dec old p pre hdr k j h,
     wf_bytes old = true /\ (32 <= p <= length old)%nat /\
     plain_header lim dec old = Some [1; 0] /\
@@ -1770,3 +1770,70 @@ Proof.
       symmetry. apply firstn_all2. rewrite app_length, firstn_length, new24_length. lia.
     + right. right. rewrite old20_fields in r. exact r.
 Qed.
+
+(* ------------------------------------------------------------------ *)
+(* append, down to the plain header: raw and encoded old headers, any decoder *)
+(* ------------------------------------------------------------------ *)
+Lemma plain_header_view lim dec img h : plain_header lim dec img = Some h -> exists v, open_view img = Some v.
+Proof.
+  unfold plain_header. destruct (open_view img) as [v|]; [intros _; now exists v | discriminate].
+Qed.
+
+(* with the descriptor's CRC defined, whatever is accepted as plain header under a given next header
+   has the CRC the descriptor names *)
+Lemma plain_header_protected lim dec a b v ha hb :
+  open_view a = Some v -> open_view b = Some v -> desc_protected lim v = true ->
+  plain_header lim dec a = Some ha -> plain_header lim dec b = Some hb -> ha = hb \/ collides ha hb.
+Proof.
+  intros Va Vb Pr Ha Hb. unfold plain_header in Ha, Hb. rewrite Va in Ha. rewrite Vb in Hb.
+  unfold desc_protected in Pr.
+  destruct (enc_desc lim v) as [[f [[pp ps] us]]|] eqn:ED.
+  - apply andb_true_iff in Pr as [Pd Pc]. rewrite Pd in Ha, Hb.
+    destruct (f_crc f) as [c|]; [|discriminate Pc].
+    destruct (dec f (slice a (32 + pp) ps) us) as [da|]; [|discriminate Ha].
+    destruct (dec f (slice b (32 + pp) ps) us) as [db|]; [|discriminate Hb].
+    destruct (crc32 da =? c) eqn:Ea; [|discriminate Ha].
+    destruct (crc32 db =? c) eqn:Eb; [|discriminate Hb].
+    injection Ha as Ha. injection Hb as Hb. subst da db.
+    apply collides_or_eq. apply Z.eqb_eq in Ea, Eb. now rewrite Ea, Eb.
+  - left. congruence.
+Qed.
+
+Theorem append_plain_crash_safe_proof : forall lim dec old p pre hdr oh pho,
+  wf_bytes old = true -> open_view old = Some oh -> plain_header lim dec old = Some pho ->
+  desc_protected lim oh = true -> (32 <= p <= length old)%nat ->
+  forall k j h,
+  plain_header lim dec (image_at old (append_trace old p pre hdr) k j) = Some h ->
+  (firstn p (image_at old (append_trace old p pre hdr) k j) = firstn p old /\ (h = pho \/ collides h pho))
+  \/ (exists v, open_view (image_at old (append_trace old p pre hdr) k j) = Some v /\ collides v oh)
+  \/ image_at old (append_trace old p pre hdr) k j = final_image old (append_trace old p pre hdr)
+  \/ exists m, (m < 16)%nat /\
+       collides (mix m (new20 (Z.of_nat p - 32) pre hdr) (old20 old)) (new20 (Z.of_nat p - 32) pre hdr).
+Proof.
+  intros lim dec old p pre hdr oh pho W Vo Po Pr Hp k j h Hh.
+  destruct (plain_header_view _ _ _ _ Hh) as [v Vv].
+  destruct (append_crash_safe_proof old p pre hdr oh W Vo Hp k j v Vv) as [[K [e|c]]|[e|r]].
+  - subst v. left. split; [exact K|].
+    exact (plain_header_protected lim dec _ old oh h pho Vv Vo Pr Hh Po).
+  - right. left. exists v. split; assumption.
+  - right. right. left. exact e.
+  - right. right. right. exact r.
+Qed.
+
+Corollary create_plain_crash_safe_proof : forall lim dec pre hdr k j h,
+  plain_header lim dec (image_at [] (create_trace pre hdr) k j) = Some h ->
+  image_at [] (create_trace pre hdr) k j = final_image [] (create_trace pre hdr)
+  \/ exists m v, (9 <= m <= 15)%nat /\ 256 ^ (Z.of_nat m - 8) <= zlenb (concat hdr) /\
+       collides (mix m (new20 0 pre hdr) skel20) (new20 0 pre hdr) /\
+       open_view (image_at [] (create_trace pre hdr) k j) = Some v /\ crc32 v = 4.
+Proof.
+  intros lim dec pre hdr k j h Hh. destruct (plain_header_view _ _ _ _ Hh) as [v Vv].
+  destruct (create_crash_safe_proof pre hdr k j v Vv) as [e|[m (A & B & C & D)]]; [left; exact e|].
+  right. exists m, v. exact (conj A (conj B (conj C (conj Vv D)))).
+Qed.
+
+(* a protected instance: the toy archive with the CRC record in its descriptor *)
+Definition toy_desc_crc : bytes :=
+  [23; 6; 0; 1; 9; 2; 0; 7; 11; 1; 0; 1; 1; 0; 12; 2; 10; 1] ++ le_bytes 4 (crc32 [1; 0]) ++ [0; 0].
+Definition toy_old_crc : bytes :=
+  MAGIC ++ [0; 4] ++ sig_fields (start_crc 2 24 (crc32 toy_desc_crc)) 2 24 (crc32 toy_desc_crc) ++ [1; 0] ++ toy_desc_crc.
